@@ -47,6 +47,34 @@ CHECKS = {
         note="Uncached parses over 200k token reads are cut off by the read-limit hook and counted as infeasible, not as verdicts. Linearity is a measured bound over the families driven, not a complexity proof.",
         design="5/C12",
     ),
+    "C05": dict(
+        category="exploration",
+        technique="runtime monitoring: metamorphic differential monitor (original vs rewritten sources through the real pipeline, canonical documents compared) over random rewrite sequences",
+        text="Accepted generated programs and accepted mutants are rewritten by random sequences of the property's meaning-preserving steps (parenthesise, name/inline, abstract into a function, rename binders, permute, trivia, move into a module); every intermediate program must still be accepted and emit the same canonical document.",
+        note="Side conditions make each step meaning-preserving in the language itself (DESIGN.md C05, section 8). Mutants only get the purely syntactic rewrites because of two open order-dependence findings.",
+        design="5/C05",
+    ),
+    "C07": dict(
+        category="exploration",
+        technique="runtime monitoring: reference-model monitor for the unifier (hooked InferenceSet::unify vs an independent Robinson unifier, exhaustive over small equation systems, divergence observed as child abort), metamorphic verdict monitor under permutation/renaming, construction-based solvability oracle",
+        text="Every single equation over 264 tag terms and every pair over a fixed subset is fed to the real unifier and compared with a reference unifier (verdict, solution, most generality, order invariance); generated programs and mutants are re-checked under statement permutations and injective respellings; well-kinded programs must be accepted and 16 kinds of unsolvable declarations rejected.",
+        note="Termination is observed as bounded progress: a diverging reduce is a stack overflow, i.e. a child abort attributed to one system.",
+        design="5/C07",
+    ),
+    "C09": dict(
+        category="exploration",
+        technique="runtime monitoring: reference-model monitor ($ref graph unfolding compared by bisimulation with the reference evaluator's regular tree), component-count conservation monitor, verdict monitor for uncuttable cycles, watchdog for termination",
+        text="Recursion-biased generated programs and five hand-shaped recursion scenario families are compiled; the document must unfold to the recursive schema the reference assigns, must not contain more implicit components than recursion points evaluated, and cycles with nothing to cut at must be rejected.",
+        note="Trusted: reference semantics and the bisimulation canonical form. Termination is a watchdog observation (suspect, then isolated 10x confirmation).",
+        design="5/C09",
+    ),
+    "C10": dict(
+        category="exploration",
+        technique="runtime monitoring: offline trace checker over the recorded call log (is_valid/load/parse/compile with logical sequence numbers) of a recording Loader delegating to the real parse/compile, against the generator's import graph; exhaustive over small graphs",
+        text="All import digraphs on up to 3 (thorough 4) modules and random graphs on up to 8 with aliased spellings, duplicate use lines and missing targets are loaded through a recording in-memory Loader; the log must show each reachable module loaded, parsed and compiled exactly once and after its imports, cycles and missing imports must be the right errors, and permuted/re-spelled use lines must not change the result.",
+        note="Module bodies use imported values and functions so a wrong compile order is also observable as a crash or wrong verdict.",
+        design="5/C10",
+    ),
     "C08": dict(
         category="exploration",
         technique="runtime monitoring: reference-model monitor (generator's binding table vs definition() of every Variable node after the real resolver ran) + document comparison for shadowing programs + located-error monitor for unbound/duplicate names",
